@@ -353,8 +353,8 @@ type ggPoint struct {
 	bit   uint
 	key   string
 	alt   ggVal
-	sched int // index into ggState.scheds; -1 = full reads
-	k     int // k-th Read / Seek (1-based)
+	sched int  // index into ggState.scheds; -1 = full reads
+	k     int  // k-th Read / Seek (1-based)
 	all   bool // run in all maxArraySize modes
 }
 
@@ -406,8 +406,8 @@ type ggState struct {
 	mode    int32 // the case's maxArraySize mode
 	scheds  [][]uint16
 	points  []ggPoint
-	refOK   [3]bool  // reference decode succeeded in mode i
-	refN    int64    // bytes the reference decode consumed (offset returned by Decode)
+	refOK   [3]bool // reference decode succeeded in mode i
+	refN    int64   // bytes the reference decode consumed (offset returned by Decode)
 	hash    uint64
 	keepLog bool
 	known   map[string]bool
